@@ -53,7 +53,7 @@ pub fn plan_for(prop: &str, tier: Tier, seed: u64, verif_dir: &str) -> Option<Pl
 			seed,
 			jobs: vec![job("lnsim", "forward", n(600, 20000))],
 			level: "exploration".into(),
-			rule: "TODO".into(),
+			rule: "profile `forward`: 3 real nodes in a line or triangle (1-4 channels, all three channel types), payments routed through a middle node (plus direct ones), each message delivered individually in a seeded order, claims/fails by the recipient, fee updates, disconnects, monitor writes completing late (async Persist) or via deferred ChainMonitor flush, crashes of any node between or inside API calls with in-flight monitor writes independently lost or surviving, restart from the latest ChannelManager snapshot (taken at seeded PersistMgr actions) and durable monitors, user force-closes; then settle (quiesce) and liquidate (close everything on a UTXO/mempool/script-verifying chain model, mine until all monitors drain, sweep). Oracles during the run: C02-3 forwarded HTLC matches an inbound HTLC and keeps at least the advertised fee and CLTV delta, C02-5 PaymentForwarded truthful; at the end: C02-W wealth (each node owns on chain at least what PaymentClaimed/PaymentForwarded/PaymentSent told it, less on-chain fees and its dust allowance), no library panic. One evaluation = one seeded run (config, schedule and faults all drawn from the run seed; replay executes the recorded action trace). non-trivial = the run executed at least one payment/HTLC to a terminal state or fired at least one fault; distinct = distinct FNV hash of the executed (action kind, actor) sequence.".into(),
 			assumptions: t_assumptions.clone(),
 			probes: vec![],
 			exhaustive: false,
@@ -64,7 +64,7 @@ pub fn plan_for(prop: &str, tier: Tier, seed: u64, verif_dir: &str) -> Option<Pl
 			seed,
 			jobs: vec![job("lnsim", "forward", n(600, 20000))],
 			level: "exploration".into(),
-			rule: "TODO".into(),
+			rule: "profile `forward` (see C02 for the world and fault mix: 3 real nodes, individually scheduled messages, async/deferred persistence, crashes with stale ChannelManager snapshots, on-chain resolution). Oracles: C03-1 PaymentSent only with the recipient's preimage, C03-2 recipient paid => sender sees PaymentSent, C03-3 every payment has a terminal event after settle+liquidation, C03-4 amount/fee of PaymentSent equal what left the sender, C03-5 terminal events neither repeated within an incarnation nor contradictory, C03-6 payments absent after a stale restart are really gone; sender side of the wealth oracle. One evaluation = one seeded run (config, schedule and faults all drawn from the run seed; replay executes the recorded action trace). non-trivial = the run executed at least one payment/HTLC to a terminal state or fired at least one fault; distinct = distinct FNV hash of the executed (action kind, actor) sequence.".into(),
 			assumptions: t_assumptions.clone(),
 			probes: vec![],
 			exhaustive: false,
@@ -75,7 +75,7 @@ pub fn plan_for(prop: &str, tier: Tier, seed: u64, verif_dir: &str) -> Option<Pl
 			seed,
 			jobs: vec![job("lnsim", "receive", n(600, 20000)), job("lnsim", "offchain", n(1500, 20000))],
 			level: "exploration".into(),
-			rule: "TODO".into(),
+			rule: "profiles `receive` (3 real nodes, world and fault mix of C02's `forward` profile: direct, forwarded and two-part payments, claims and explicit fails by the recipient in seeded order relative to message delivery, crashes and restarts of the recipient with stale ChannelManager snapshots, on-chain resolution) and `offchain` (2-3 nodes, no chain activity, boundary amounts). Oracles: C04-1 PaymentClaimable only at the registered recipient, for the complete amount, with a claim window; C04-3 the preimage leaves the node only after claim_funds, PaymentClaimed follows claim_funds made above the deadline and reports the full amount, never without claim_funds; recipient side of the wealth oracle (what PaymentClaimed reported is owned on chain after liquidation). One evaluation = one seeded run (config, schedule and faults all drawn from the run seed; replay executes the recorded action trace). non-trivial = the run executed at least one payment/HTLC to a terminal state or fired at least one fault; distinct = distinct FNV hash of the executed (action kind, actor) sequence.".into(),
 			assumptions: t_assumptions.clone(),
 			probes: vec![],
 			exhaustive: false,
@@ -90,7 +90,7 @@ pub fn plan_for(prop: &str, tier: Tier, seed: u64, verif_dir: &str) -> Option<Pl
 				job("lnsim", "crash", n(400, 10000)),
 			],
 			level: "exploration".into(),
-			rule: "TODO".into(),
+			rule: "profiles `offchain`, `forward`, `crash`: every call that reaches the signer seam (sign_counterparty_commitment, validate_holder_commitment, release_commitment_secret, sign_holder_commitment, HTLC signing) and every transaction handed to the broadcaster is recorded and fed to a per-channel revocation automaton written from BOLT 2. Oracles: C05-1 a secret is released only after a newer holder commitment was validated, C05-2 a revoked holder commitment (or HTLC tx on it) is never signed, re-validated or broadcast, nor revoked after broadcast, C05-3 at most one unrevoked counterparty commitment is outstanding when signing and numbers advance by one, C05-4 revoke_and_ack carries exactly the released secret and the right next point; LDK's own TestChannelSigner policy assertions are treated as oracle failures. Crashes restore signer state from the durable monitors/manager only. One evaluation = one seeded run (config, schedule and faults all drawn from the run seed; replay executes the recorded action trace). non-trivial = the run executed at least one payment/HTLC to a terminal state or fired at least one fault; distinct = distinct FNV hash of the executed (action kind, actor) sequence.".into(),
 			assumptions: t_assumptions.clone(),
 			probes: vec![],
 			exhaustive: false,
@@ -101,7 +101,7 @@ pub fn plan_for(prop: &str, tier: Tier, seed: u64, verif_dir: &str) -> Option<Pl
 			seed,
 			jobs: vec![job("lnsim", "onchain", n(600, 20000)), job("lnsim", "forward", n(300, 5000))],
 			level: "exploration".into(),
-			rule: "TODO".into(),
+			rule: "profiles `onchain` and `forward` (3 real nodes; channels are force-closed by either side at seeded points or by the stale-manager rule after crashes, with HTLCs pending in both directions; every remaining channel is force-closed in the liquidation phase and the chain is mined until every monitor has drained; anchor CPFP through BumpTransaction events served by a simulated wallet, transactions relayed to the mempool in seeded order and delay). The chain model verifies every broadcast transaction with libbitcoinconsensus against its UTXO set (scripts, amounts, locktime, BIP68) and applies mempool replacement rules. Oracles: C07-1 every broadcast tx is consensus-valid, final at the height it is offered for, and creates no money; C07-4 SpendableOutputs refer to confirmed outputs with the right value, are spendable by the node's keys (sweep verified by script) and claimable balances drain to nothing; wealth oracle; LDK's debug assertions in onchaintx.rs/package.rs count as oracle failures. One evaluation = one seeded run (config, schedule and faults all drawn from the run seed; replay executes the recorded action trace). non-trivial = the run executed at least one payment/HTLC to a terminal state or fired at least one fault; distinct = distinct FNV hash of the executed (action kind, actor) sequence.".into(),
 			assumptions: t_assumptions.clone(),
 			probes: vec![],
 			exhaustive: false,
@@ -112,7 +112,7 @@ pub fn plan_for(prop: &str, tier: Tier, seed: u64, verif_dir: &str) -> Option<Pl
 			seed,
 			jobs: vec![job("lnsim", "asyncpersist", n(600, 20000))],
 			level: "exploration".into(),
-			rule: "TODO".into(),
+			rule: "profile `asyncpersist`: every node's Persist implementation returns InProgress for a seeded subset of calls (switching from Completed to InProgress at any time, never back without restart), completions are delivered in seeded order and delay, including while disconnected; some nodes use the deferred ChainMonitor with seeded flush points; crashes lose or keep in-flight writes independently. The Watch tap records each update_id and the simulated disk what is durable. Oracles: C09-1 update ids per channel are consecutive; C09-2 no commitment_signed, revoke_and_ack, update_fulfill_htlc, funding_signed/channel_ready leaves the node (observed at the message seam) before the monitor update it depends on, and all earlier ones, are durable. One evaluation = one seeded run (config, schedule and faults all drawn from the run seed; replay executes the recorded action trace). non-trivial = the run executed at least one payment/HTLC to a terminal state or fired at least one fault; distinct = distinct FNV hash of the executed (action kind, actor) sequence.".into(),
 			assumptions: t_assumptions.clone(),
 			probes: vec![],
 			exhaustive: false,
@@ -123,7 +123,7 @@ pub fn plan_for(prop: &str, tier: Tier, seed: u64, verif_dir: &str) -> Option<Pl
 			seed,
 			jobs: vec![job("lnsim", "crashsweep", n(16, 400)), job("lnsim", "crash", n(400, 20000))],
 			level: "fault_enumeration".into(),
-			rule: "TODO".into(),
+			rule: "two jobs. `crashsweep`: a seeded base scenario (profile crash) is recorded, then re-executed once per crash point k = every Persist call of every node (freeze-and-discard inside the k-th call, with the write either lost or surviving) and once per action boundary, each followed by restart, settle and liquidation - an enumeration of the crash points of that scenario. `crash`: seeded runs with several crashes (also during recovery), ChannelManager snapshots of seeded staleness. Oracles: C10-1 monitors and manager deserialize, restart does not panic; C10-2 a channel whose monitor is ahead is closed not resumed; all C02/C03/C04/C05/C07 oracles stay armed after the restart (revoked state never signed or broadcast, payments reach truthful terminal events, wealth). One evaluation = one seeded run (config, schedule and faults all drawn from the run seed; replay executes the recorded action trace). non-trivial = the run executed at least one payment/HTLC to a terminal state or fired at least one fault; distinct = distinct FNV hash of the executed (action kind, actor) sequence.".into(),
 			assumptions: t_assumptions.clone(),
 			probes: vec![],
 			exhaustive: false,
@@ -134,7 +134,7 @@ pub fn plan_for(prop: &str, tier: Tier, seed: u64, verif_dir: &str) -> Option<Pl
 			seed,
 			jobs: vec![job("lnsim", "chainstyle", n(500, 20000))],
 			level: "exploration".into(),
-			rule: "TODO".into(),
+			rule: "profile `chainstyle`: the live nodes receive the chain through a seeded delivery style (Listen full blocks, Listen filtered blocks, Confirm with transactions_confirmed before or after best_block_updated, per-block or batched, with transaction_unconfirmed or blocks_disconnected on reorgs) while shadow ChannelMonitors - clones made through serialisation - are fed the same chain in every other style and, at seeded points, reloaded. Reorgs of depth 1-5 (< ANTI_REORG_DELAY) remove and re-mine or replace transactions. Oracles: C11-1 best block, claimable balances and the set of watched (reorg-sensitive) txids agree between styles after each block; C11-2 no SpendableOutputs before 6 confirmations; panics while delivering in another style. One evaluation = one seeded run (config, schedule and faults all drawn from the run seed; replay executes the recorded action trace). non-trivial = the run executed at least one payment/HTLC to a terminal state or fired at least one fault; distinct = distinct FNV hash of the executed (action kind, actor) sequence.".into(),
 			assumptions: t_assumptions.clone(),
 			probes: vec![],
 			exhaustive: false,
@@ -145,7 +145,7 @@ pub fn plan_for(prop: &str, tier: Tier, seed: u64, verif_dir: &str) -> Option<Pl
 			seed,
 			jobs: vec![job("lnsim", "roundtrip", n(250, 8000))],
 			level: "exploration".into(),
-			rule: "TODO".into(),
+			rule: "profile `roundtrip`: during a `forward`-style run (payments, crashes, async persistence, on-chain closes), at seeded points every live ChannelMonitor, every ChannelMonitorUpdate seen at the Watch tap and the ChannelManager are written and read back: C12-a monitor == read(write(monitor)) (LDK's own field-wise equality, hook H3) also after a second trip and after applying the next update to both copies, updates re-serialise identically; C12-b the reloaded manager lists the same channels and payments; C12-c the stored bytes are then read through a fault-injecting reader (truncation at every seeded offset, io::Error, bit flips): decoding must return Err or a value, never panic, and never accept a truncated monitor. One evaluation = one seeded run (config, schedule and faults all drawn from the run seed; replay executes the recorded action trace). non-trivial = the run executed at least one payment/HTLC to a terminal state or fired at least one fault; distinct = distinct FNV hash of the executed (action kind, actor) sequence.".into(),
 			assumptions: t_assumptions.clone(),
 			probes: vec![],
 			exhaustive: false,
@@ -156,7 +156,7 @@ pub fn plan_for(prop: &str, tier: Tier, seed: u64, verif_dir: &str) -> Option<Pl
 			seed,
 			jobs: vec![job("codecsim", "stream", n(30000, 100000)), job("codecsim", "ioskip", n(1000, 5000))],
 			level: "exploration".into(),
-			rule: "TODO".into(),
+			rule: "codecsim profiles `stream` and `ioskip`: for each of the peer message types a seeded value is built, encoded and decoded through LDK's FixedLengthReader on top of a fault-injecting reader owned by the simulator (chunking, EOF or io::Error at a seeded offset, bit/byte mutation, trailing bytes, rewritten length prefixes, TLV stream edits: unknown odd/even, duplicate, out of order, non-minimal BigSize, huge lengths). Oracles: round trip is identical; truncation gives ShortRead/Io and never a value from fewer bytes; io errors surface as DecodeError::Io; unknown even TLVs are refused and odd ones skipped; allocation stays bounded by the frame size (global allocator guard); no panic. One evaluation = one seeded run (config, schedule and faults all drawn from the run seed; replay executes the recorded action trace). non-trivial = the run executed at least one payment/HTLC to a terminal state or fired at least one fault; distinct = distinct FNV hash of the executed (action kind, actor) sequence.".into(),
 			assumptions: t_assumptions.clone(),
 			probes: vec![],
 			exhaustive: false,
@@ -171,7 +171,7 @@ pub fn plan_for(prop: &str, tier: Tier, seed: u64, verif_dir: &str) -> Option<Pl
 				job("transportsim", "adversary", n(8000, 40000)),
 			],
 			level: "exploration".into(),
-			rule: "TODO".into(),
+			rule: "transportsim profiles `mix`, `rotation`, `adversary`: two or three real PeerManagers (real PeerChannelEncryptor, Noise_XK handshake, key rotation every 1000 messages) joined by simulator-owned byte pipes that fragment, delay, back-pressure (send_data returning short counts, read pausing), cut, and - in fault runs - flip, insert, delete, duplicate or replay bytes; a raw adversary peer speaks the handshake itself and sends malformed frames. Oracle: the sequence of messages each handler receives is a prefix of what the other side enqueued, exactly once and in order, and any tampering ends in disconnection before a forged/duplicated/reordered message is delivered; rotation runs push >2000 messages per direction. One evaluation = one seeded run (config, schedule and faults all drawn from the run seed; replay executes the recorded action trace). non-trivial = the run executed at least one payment/HTLC to a terminal state or fired at least one fault; distinct = distinct FNV hash of the executed (action kind, actor) sequence.".into(),
 			assumptions: t_assumptions.clone(),
 			probes: vec![],
 			exhaustive: false,
@@ -182,7 +182,7 @@ pub fn plan_for(prop: &str, tier: Tier, seed: u64, verif_dir: &str) -> Option<Pl
 			seed,
 			jobs: vec![job("blocksyncsim", "sync", n(20000, 100000)), job("blocksyncsim", "tiplies", n(2000, 10000))],
 			level: "exploration".into(),
-			rule: "TODO".into(),
+			rule: "blocksyncsim profiles `sync` and `tiplies`: real SpvClient / ChainPoller / init::synchronize_listeners over a BlockSource answering from a simulator-owned block tree (forks, reorgs deeper than the header cache, equal-work ties), whose futures complete after seeded numbers of polls and which fails (transient/persistent) or lies (wrong block, bad PoW, bad merkle root, non-connecting header, wrong height/chainwork) at a seeded request index; for small scenarios every request index x fault kind is enumerated. Oracle: each listener's connect/disconnect history is always a valid walk of the real tree (stack model), never includes an invalid block, ends at the best tip once faults stop, and an error leaves the listener at a consistent point. One evaluation = one seeded run (config, schedule and faults all drawn from the run seed; replay executes the recorded action trace). non-trivial = the run executed at least one payment/HTLC to a terminal state or fired at least one fault; distinct = distinct FNV hash of the executed (action kind, actor) sequence.".into(),
 			assumptions: t_assumptions.clone(),
 			probes: vec![],
 			exhaustive: false,
@@ -193,7 +193,7 @@ pub fn plan_for(prop: &str, tier: Tier, seed: u64, verif_dir: &str) -> Option<Pl
 			seed,
 			jobs: vec![job("gossipsim", "mixed", n(20000, 300000))],
 			level: "exploration".into(),
-			rule: "TODO".into(),
+			rule: "gossipsim profile `mixed`: a universe of seeded channels/nodes with real signatures; announcements, updates and node announcements (valid, stale, equal-timestamp, badly signed, wrong chain, over-capacity) are delivered to a real NetworkGraph/P2PGossipSync in seeded order with duplicates, with synchronous or asynchronous UTXO lookups completing later in seeded order, RGS snapshots, pruning under a simulated clock (hook H2) with jumps, permanent-failure removals and serialisation round trips. Oracle: the graph equals a small reference model (latest authentic message per direction/node, nothing unauthenticated, nothing older than the staleness bounds); two delivery orders of the same message set converge. One evaluation = one seeded run (config, schedule and faults all drawn from the run seed; replay executes the recorded action trace). non-trivial = the run executed at least one payment/HTLC to a terminal state or fired at least one fault; distinct = distinct FNV hash of the executed (action kind, actor) sequence.".into(),
 			assumptions: t_assumptions.clone(),
 			probes: vec![],
 			exhaustive: false,
@@ -210,7 +210,7 @@ pub fn plan_for(prop: &str, tier: Tier, seed: u64, verif_dir: &str) -> Option<Pl
 				job("persistsim", "async", n(200, 2000)),
 			],
 			level: "exploration".into(),
-			rule: "TODO".into(),
+			rule: "storesim (v1 = FilesystemStore, v2 = FilesystemStoreV2) runs the real store on a tmpfs directory under shuttle's scheduler (hook H5 puts a scheduling point before every fs call and lets the simulator fail it): concurrent writers/readers/removers/listers per key, async two-phase writes executed out of order, injected io errors, crash = stop all threads at a scheduling point and reopen; the history is checked for linearizability against a map (per key: reads see the latest completed or an in-flight write, never garbage; versions never go back). persistsim (sync, async-fifo, async): real MonitorUpdatingPersister over a simulated atomic KV store driven by monitor histories from lnsim; after every store operation every crash state is recovered and compared (verif_eq) with the in-memory monitor as of the last update reported persisted; clean-up never removes a needed update. One evaluation = one seeded run (config, schedule and faults all drawn from the run seed; replay executes the recorded action trace). non-trivial = the run executed at least one payment/HTLC to a terminal state or fired at least one fault; distinct = distinct FNV hash of the executed (action kind, actor) sequence.".into(),
 			assumptions: t_assumptions.clone(),
 			probes: vec![],
 			exhaustive: false,
